@@ -234,4 +234,29 @@ theorem mkN?_ok_inv (r : Region) (n : List Nat) (nm : Mesh) (h : Mesh.mkN? r n "
         simp only [List.any_eq_true, decide_eq_true_eq]
         exact ⟨k, hk, e⟩
 
+/-- well-formed input of the rotator: three good axes, scalar or 3-vector with three labels -/
+def WF (f : Fld) : Prop :=
+  Mesh3 f.mesh ∧ (f.nvdim = 1 ∨ (f.nvdim = 3 ∧ (f.vdims.getD []).length = 3))
+
+/-- interpolate-then-rotate equals rotate-then-interpolate (what the code does) -/
+theorem valuesAt_eq_rot_origAt (f : Fld) (R : M3) (ord : List Nat) (p : V3)
+    (hv : f.nvdim = 1 ∨ (f.nvdim = 3 ∧ ∀ a, a < 3 → ord.getD a 0 < 3)) :
+    valuesAt f R ord p = rotVal f.nvdim R ord (origAt f p) := by
+  rcases hv with h1 | ⟨h3, ho⟩
+  · unfold valuesAt origAt rotVal
+    rw [if_pos h1]
+    apply tab_congr
+    intro c _
+    rw [padded_scalar f R ord c h1]
+  · unfold valuesAt rotVal
+    rw [if_neg (by omega), h3]
+    apply tab_congr
+    intro c hc
+    rw [padded_vector f R ord c h3 hc, interpAt_linear3, M3.apply_get,
+      origAt_getD f p _ (by rw [h3]; exact ho 0 (by omega)), origAt_getD f p _ (by rw [h3]; exact ho 1 (by omega)),
+      origAt_getD f p _ (by rw [h3]; exact ho 2 (by omega))]
+
+theorem rotated_data (f : Fld) (R : M3) (ord : List Nat) (nm : Mesh) (idx : List Nat) :
+    (rotated f R ord nm).data.get idx = valuesAt f R ord (backPos f R nm idx) := rfl
+
 end DFV.C18
